@@ -234,8 +234,9 @@ def _total(i, r):
 class SortStartsEnds(Case):
     """_sort_starts_ends against its contract for 1..3 blocks (all integer coordinates): the real sorted()/zip code is
     executed with the comparison outcomes forked.  BOUNDED in the number of blocks; larger inputs rest on the trusted
-    contract of sorted()."""
-    props = ("C02",)
+    contract of sorted().  The constructor contract (CInit) USES this contract as a summary, so it is re-proved under
+    every property that CInit carries."""
+    props = ("C02", "C19", "C01") + GENE_LAYER
     proved = True
     name = "CompoundInterval._sort_starts_ends[1..3 blocks, all coordinates]"
     func = Q + "_sort_starts_ends"
@@ -245,6 +246,8 @@ class SortStartsEnds(Case):
         self.name = f"CompoundInterval._sort_starts_ends[{n} blocks, all coordinates]"
         self.call = "CompoundInterval._sort_starts_ends(starts, ends, strand)"
         self.ensures = {
+            # repeated blocks are KEPT (a location may list the same block twice: its length counts both)
+            "every-block-kept": lambda i, r: len(r[0]) == n and len(r[1]) == n,
             "ordered": lambda i, r: And(*[key_le(_is_plus(i.strand), r[0][j], r[1][j], r[0][j + 1], r[1][j + 1])
                                           for j in range(n - 1)]) if n > 1 else True,
             "permutation": lambda i, r: And(*[Or(*[And(r[0][a] == i.starts[b], r[1][a] == i.ends[b])
